@@ -194,6 +194,7 @@ package hessian
 //@   let tg    = @in[old(@pos)]
 //@   let p1    = old(@pos) + 1
 //@   proves [C14,C06:data-eof]       !avail ==> err != nil
+//@   proves [C03,C05:data-classdef] avail && tg == 'C' && err == nil ==> len(d.clsDefList) >= len(old(d.clsDefList)) + 1
 //@   ensures [C14,C06:data-consumes] err == nil ==> @pos >= old(@pos) + 1
 //@   proves [C01,C03:data-null]      avail && tg == 'N' ==> err == nil && result0 == nil && @pos == p1
 //@   proves [C01,C03:data-end]       avail && tg == 'Z' ==> err == io.EOF && @pos == p1
